@@ -962,11 +962,14 @@ def _bytes_decode(it, b, encoding="utf-8", errors="strict"):
         raise Unsupported("non-UTF-8 decode")
     if isinstance(b, BytesVal) and b.is_concrete():
         try:
-            return b.to_bytes().decode("utf-8")
+            return b.to_bytes().decode("utf-8", errors)
         except UnicodeDecodeError:
             raise it.exc("UnicodeDecodeError", "invalid utf-8")
     valid = utf8_valid(b)
     if not it.path.branch(valid):
+        if errors != "strict":
+            # errors="replace"/"ignore": no exception, but the text is no longer the text of these bytes
+            return Opaque("lossy-decoded text")
         raise it.exc("UnicodeDecodeError", "invalid utf-8")
     if isinstance(b, ABytes):
         return SStrA(b)
